@@ -131,3 +131,48 @@ void h_str_addeq_string(void)
     __CPROVER_assert(STR_UNCHANGED(&o, o0), "ST_string_op_addeq_string.postcondition.3: the appended string is not modified");
     __CPROVER_assert(ST_LIVE == live0 - OWNS(s0_n) + OWNS(s.m_buffer.m_size), "ST_string_op_addeq_string.postcondition.4: the old block is released; nothing leaked");
 }
+
+/* ---- C19 at the string level: every allocation inside operator+ / += / set may fail (ST_FAULT: each st_new_char call decides independently) ---- */
+#ifndef FAULT_OP
+#define FAULT_OP 0
+#endif
+#define STR_EMPTY(t) ((t)->m_buffer.m_size == 0 && (t)->m_buffer.m_chars == (t)->m_buffer.m_data && (t)->m_buffer.m_data[0] == 0)
+void h_str_fault(void)
+{
+    str_ghosts(); struct ST_string s; mk_str(&s); SNAP_STR(&s, s0); struct ST_string o; mk_str(&o); SNAP_STR(&o, o0);
+    uint32_t ch = nondet_unsigned(); __CPROVER_assume(ch <= 0x10FFFF); size_t len = ch < 0x80 ? 1 : ch < 0x800 ? 2 : ch < 0x10000 ? 3 : 4;
+    __CPROVER_assume(s0_n + o0_n < ST_MAXN - 8);
+    long live0 = ST_LIVE; ST_FAULT = 1; VU.calls = 0; CU.calls = 0;
+    struct ST_string res; _Bool has_res = 0; size_t newsize = 0;
+    GI2 = s0_n; GI3 = nondet_size_t();
+    if (FAULT_OP == 0) { GI1 = s0_n + len; ST_op_add__rstring_c32(&res, &s, ch); has_res = 1; newsize = s0_n + len; }
+    else if (FAULT_OP == 1) { GI1 = s0_n + o0_n; ST_op_add__rstring_rstring(&res, &s, &o); has_res = 1; newsize = s0_n + o0_n; }
+    else if (FAULT_OP == 2) { GI1 = s0_n + len; ST_string_op_addeq__c32(&s, ch); newsize = s0_n + len; }
+    else if (FAULT_OP == 3) { GI1 = s0_n + o0_n; ST_string_op_addeq__rstring(&s, &o); newsize = s0_n + o0_n; }
+    else { GI1 = o0_n; ST_string_set__rbufferc_utf_validation_t(&s, &o.m_buffer, ST_utf_validation_t_assume_valid); newsize = o0_n; }
+    __CPROVER_assert(ST_EXC == 0 || ST_EXC == EXC_std_bad_alloc, "ST_string_fault.postcondition.1: the only exception is bad_alloc, which reaches the caller");
+    if (ST_EXC == EXC_std_bad_alloc) {
+        if (FAULT_OP <= 3) __CPROVER_assert(STR_UNCHANGED(&s, s0), "ST_string_fault.postcondition.2: after a failed allocation the target / left operand still holds its previous value");
+        else __CPROVER_assert(STR_WF(&s) && (STR_UNCHANGED(&s, s0) || STR_EMPTY(&s)), "ST_string_fault.postcondition.2: after a failed allocation the target holds its previous value or the empty value, never released storage");
+        __CPROVER_assert(STR_UNCHANGED(&o, o0), "ST_string_fault.postcondition.3: the argument is unchanged");
+        __CPROVER_assert(ST_LIVE == live0 - (FAULT_OP == 4 && !STR_UNCHANGED(&s, s0) ? OWNS(s0_n) : 0), "ST_string_fault.postcondition.4: nothing is leaked or released twice (partly built results are released)");
+    } else {
+        const struct ST_string *r = has_res ? &res : &s;
+        __CPROVER_assert(STR_WF(r) && r->m_buffer.m_size == newsize, "ST_string_fault.postcondition.5: without a failure the result is well formed and has the expected length");
+        __CPROVER_assert(ST_LIVE == live0 + OWNS(newsize) - (has_res ? 0 : OWNS(s0_n)), "ST_string_fault.postcondition.6: heap blocks are accounted for exactly");
+    }
+}
+
+/* ---- C04: assignment from a pointer into the string's OWN storage (s = s.c_str() + k; s.set(s.c_str() + k, n)) ---- */
+void h_str_set_utf8_self(void)
+{
+    str_ghosts(); struct ST_string t; mk_str(&t); SNAP_STR(&t, t0);
+    size_t k = nondet_size_t(), n = nondet_size_t(); __CPROVER_assume(k <= t0_n && n <= t0_n - k && n < ((size_t)1 << 28));
+    const char *src = t0_c + k; char s_at = GI0 < n ? src[GI0] : 0; long live0 = ST_LIVE;
+    GI1 = n; GI2 = t0_n; GI3 = nondet_size_t(); VU.calls = 0; CU.calls = 0;
+    ST_string__set_utf8__pc_sz_utf_validation_t(&t, src, n, ST_utf_validation_t_assume_valid);
+    __CPROVER_assert(ST_EXC == 0, "ST_string_set_utf8_self.postcondition.1: no exception (assume_valid, no allocation fault injected)");
+    __CPROVER_assert(STR_WF(&t) && t.m_buffer.m_size == n, "ST_string_set_utf8_self.postcondition.2: the string is well formed and has the length of the given range");
+    __CPROVER_assert(!(GI0 < n) || t.m_buffer.m_chars[GI0] == s_at, "ST_string_set_utf8_self.postcondition.3: the string holds the bytes the range held BEFORE the call, although the range lies in the string's own storage (the argument is copied before the old value is released)");
+    __CPROVER_assert(ST_LIVE == live0 - OWNS(t0_n) + OWNS(n), "ST_string_set_utf8_self.postcondition.4: the old block is released exactly once; nothing leaked");
+}
